@@ -890,6 +890,7 @@ static void register_handlers()
 	H["ping"] = [](const json&) { return R(CKR_OK); };
 }
 
+#ifndef P11WORKER_NO_MAIN
 int main(int argc, char** argv)
 {
 	signal(SIGXFSZ, SIG_IGN);
@@ -938,3 +939,4 @@ int main(int argc, char** argv)
 	}
 	return 0;
 }
+#endif
